@@ -27,11 +27,14 @@ enum Call {
     /// `n` get_time calls issued at once by one task (n = the capacity of the clock's request
     /// queue saturates it: what "however many tasks" means for a bounded queue)
     Flood(usize),
+    /// a get_time whose future is polled once (the request is queued) and then dropped, as a
+    /// timeout or a `select!` does; no stamp is received
+    CancelledGet,
 }
 
 fn remote(c: Call) -> Option<HLCTimestamp> {
     match c {
-        Call::Get | Call::Flood(_) => None,
+        Call::Get | Call::Flood(_) | Call::CancelledGet => None,
         Call::Reg { ahead_ms, counter, node } => Some(HLCTimestamp::new(
             Duration::from_secs(BASE) + Duration::from_millis(ahead_ms),
             counter,
@@ -60,6 +63,8 @@ fn programs(thorough: bool) -> Vec<Vec<Call>> {
         vec![R_OWN, Call::Get],
         vec![R_AHEAD_HIGH, Call::Get],
         vec![R_SAME_TICK_HIGH, Call::Get, Call::Get],
+        vec![Call::CancelledGet, R_AHEAD, Call::Get],
+        vec![Call::CancelledGet, Call::Get],
     ];
     if thorough {
         v.push(vec![Call::Get, Call::Get, Call::Get]);
@@ -136,8 +141,19 @@ fn run_one(progs: &[Vec<Call>], mode: Wall, prefix: &[usize]) -> (Run, Obs) {
                             }
                             continue;
                         }
+                        if call == Call::CancelledGet {
+                            {
+                                let mut f = Box::pin(clock.get_time());
+                                let _ = futures::poll!(f.as_mut());
+                            }
+                            let mut l = log.borrow_mut();
+                            l.0 += 1;
+                            let end = l.0;
+                            l.1.push(Rec { task, idx, call, start, end, result: None });
+                            continue;
+                        }
                         let result = match call {
-                            Call::Flood(_) => unreachable!(),
+                            Call::Flood(_) | Call::CancelledGet => unreachable!(),
                             Call::Get => Some(clock.get_time().await.as_u64()),
                             Call::Reg { .. } => {
                                 clock.register_ts(remote(call).unwrap()).await;
